@@ -564,6 +564,7 @@ package dbft
 //@   requires [C03] @onePreparation implies(msg.Type() == PrepareRequestType || msg.Type() == PrepareResponseType, gPrep == nil || gPrep == msg)
 //@   requires [C03] @lockedNoChangeView implies(msg.Type() == ChangeViewType, gCommit == nil && gPreCommit == nil)
 //@   requires [C03] @viewMonotone msg.ViewNumber() >= gMaxOwnView
+//@   requires [C07] @commitPhase implies(msg.Type() == CommitType && amev() && (gCommit == nil), self.preBlockProcessed && gPreCommit != nil && preCommitCount() >= specM(NN()))
 //@   ghost gCommit = ite(msg.Type() == CommitType, msg, gCommit)
 //@   ghost gPreCommit = ite(msg.Type() == PreCommitType, msg, gPreCommit)
 //@   ghost gPrep = ite(msg.Type() == PrepareRequestType || msg.Type() == PrepareResponseType, msg, gPrep)
@@ -632,6 +633,10 @@ package dbft
 //@   requires [C13] @silent notWatchOnly()
 //@   requires [C04] @evidence implies(!amev(), rsor() && hasAllTx() && prepCount() >= specM(NN()) && prep())
 //@   requires [C07] @phase implies(amev(), self.PreCommitPayloads[self.MyIndex] != nil && self.preBlockProcessed && preCommitCount() >= specM(NN()))
+// ... and that own pre-commit is one this node has really broadcast (gPreCommit is set by broadcast only)
+//@   requires [C07] @ownPreCommitBroadcast implies(amev(), gPreCommit != nil && gPreCommit == self.PreCommitPayloads[self.MyIndex])
+// a Commit under anti-MEV goes out only in the commit phase, wherever it is sent from
+
 //@   ensures [C11] @wf wf()
 //@   ensures [C11,C02,C04] @slot slot()
 //@   ensures [C02,C01] @verc verc()
